@@ -11,11 +11,15 @@ import (
 	"time"
 
 	rlog "github.com/alibaba/RedisShake/pkg/libs/log"
+	"github.com/alibaba/RedisShake/redis-shake/checkpoint"
+	utils "github.com/alibaba/RedisShake/redis-shake/common"
 	conf "github.com/alibaba/RedisShake/redis-shake/configure"
 	"github.com/alibaba/RedisShake/redis-shake/metric"
 	"pgregory.net/rapid"
 
+	"verif/harness/fsrc"
 	"verif/harness/logcap"
+	"verif/harness/mredis"
 	"verif/harness/stats"
 )
 
@@ -78,12 +82,13 @@ func leakCheck(t fataler, path string) bool {
 	return violation(t, "C19", sig, "a configured password appears in the output of path %q (%d records), e.g.: %s", path, len(leaks), what)
 }
 
-var c19Paths = []string{"restore-entry", "full-sync", "incremental", "resume-cuts", "checkpoint-load", "rump", "supervisor", "syncer-topology", "handshake", "reconnect-refused", "sync-end-to-end", "status-documents"}
+var c19Paths = []string{"restore-entry", "full-sync", "incremental", "resume-cuts", "checkpoint-load", "rump", "supervisor", "syncer-topology", "handshake", "reconnect-refused", "sync-end-to-end", "status-documents", "auth-type-unknown"}
 
 // c19Path runs one of the tool's run paths (the other properties' drivers, with the sentinel
 // passwords configured everywhere and the log at a generated level) and scans what was printed.
-func c19Path(t *rapid.T) {
-	path := rapid.SampledFrom(c19Paths).Draw(t, "path")
+func c19Path(t *rapid.T) { c19RunPath(t, rapid.SampledFrom(c19Paths).Draw(t, "path")) }
+
+func c19RunPath(t *rapid.T, path string) {
 	level := rapid.SampledFrom([]rlog.LogLevel{rlog.LEVEL_NONE, rlog.LEVEL_ERROR, rlog.LEVEL_WARN, rlog.LEVEL_INFO, rlog.LEVEL_DEBUG, rlog.LEVEL_DEBUG}).Draw(t, "level")
 	logcap.Cap.TakeLeaks()
 	before, _ := logcap.Cap.Stats()
@@ -91,6 +96,13 @@ func c19Path(t *rapid.T) {
 	defer rlog.SetLevel(rlog.LEVEL_ALL)
 	keepLevel = true
 	defer func() { keepLevel = false }()
+	// a path that fails on its own property (or panics) may still have printed a password: look before the failure propagates
+	finished := false
+	defer func() {
+		if !finished {
+			leakCheck(t, path)
+		}
+	}()
 	switch path {
 	case "restore-entry":
 		for i := 0; i < 5; i++ {
@@ -159,6 +171,31 @@ func c19Path(t *rapid.T) {
 		if sig != "" && !strings.HasPrefix(sig, "e2e:abort") {
 			t.Fatalf("harness: path run failed on its own property: %s %s", sig, msg)
 		}
+	case "auth-type-unknown":
+		// an auth type the server does not know (e.g. "adminauth" against a stock Redis): the server's error reply
+		// echoes the arguments, i.e. the password; whatever the tool does with that reply, it must not print it.
+		// The runs are expected to fail; only the output matters.
+		authType := rapid.SampledFrom([]string{"adminauth", "AUTHX", "auth2"}).Draw(t, "authType")
+		src := fsrc.New(srcSentinel, fsrc.Plan{Steps: []fsrc.Step{{Send: []byte("-NOAUTH Authentication required.\r\n"), Sleep: 200 * time.Millisecond, Close: true}}})
+		src.RequireAuth = true
+		ds := newSyncer(0)
+		ds.VerifSetResume("", 0, -1, "")
+		logcap.RunTree(func() { ds.VerifSendPSyncCmd(src.Addr(), authType, srcSentinel, false, "?") })
+		src.Retire(3 * time.Second)
+		tgt := mredis.New()
+		tgt.Password = tgtSentinel
+		tgt.Listen()
+		logcap.RunTree(func() {
+			checkpoint.LoadCheckpoint(0, "10.0.0.1:6379", []string{tgt.Addr()}, authType, tgtSentinel, "redis-shake-checkpoint", false, false)
+		})
+		logcap.RunTree(func() {
+			if c, err := utils.OpenRedisConn([]string{tgt.Addr()}, authType, tgtSentinel, false, false); err == nil && c != nil {
+				c.Do("set", "k", "v")
+				c.Close()
+			}
+		})
+		tgt.Close()
+		logcap.Cap.TakeAborts()
 	case "status-documents":
 		// per-syncer status and the REST metric document built from it
 		ds := newSyncer(0)
@@ -174,6 +211,7 @@ func c19Path(t *rapid.T) {
 		logcap.Cap.Scan("config echo (GetSafeOptions)", sb)
 		logcap.Cap.Scan("config echo %+v", []byte(fmt.Sprintf("%+v", conf.GetSafeOptions())))
 	}
+	finished = true
 	dropLeftoverAborts()
 	if leakCheck(t, path) {
 		return
@@ -193,5 +231,17 @@ func TestC19(t *testing.T) {
 }
 
 func TestC19Paths(t *testing.T) { rapid.Check(t, c19Path) }
+
+// TestC19EachPath: the same runs, stratified: every path gets its own share of cases (a shard takes every n-th path).
+func TestC19EachPath(t *testing.T) {
+	si, sn := shard()
+	for i, p := range c19Paths {
+		if i%sn != si {
+			continue
+		}
+		p := p
+		t.Run(strings.ReplaceAll(p, "-", "_"), func(t *testing.T) { rapid.Check(t, func(t *rapid.T) { c19RunPath(t, p) }) })
+	}
+}
 
 func TestC19Regress(t *testing.T) {}
